@@ -174,17 +174,26 @@ def gen_model(r):
     sigs = list(signatures(4))
     classes = []
     info = {}
+    cbs = {}
     for i in reversed(range(LEVELS)):
         msig = r.choice(sigs)
         isig = r.choice([s for s in sigs if len(s) <= 2])
         ms = [{"name": SHARED, "params": msig, "ret": r.choice(["float", "int"])},
               {"name": "val", "params": [], "ret": "float"}]
+        items_out = "items"
         if i + 1 < LEVELS:
-            ms.append({"name": "items", "params": isig, "ret": "Iterable[L%d]" % (i + 1)})
+            im = {"name": "items", "params": isig, "ret": "Iterable[L%d]" % (i + 1)}
+            if r.random() < 0.5:
+                # a method callback that returns a NEW call node: the collection it yields is still typed, and the
+                # call sites in the lambdas applied to it are still normalised
+                im["cb"] = "items_cb%d" % i
+                cbs["items_cb%d" % i] = {"md": None, "rw": ("rename", "items_v%d" % i)}
+                items_out = "items_v%d" % i
+            ms.append(im)
         classes.append({"name": "L%d" % i, "methods": ms})
-        info[i] = {"m": msig, "items": isig}
+        info[i] = {"m": msig, "items": isig, "items_out": items_out}
     fsig = r.choice([s for s in sigs if len(s) >= 1])
-    desc = {"classes": classes, "functions": [{"name": "fn", "params": fsig, "ret": "float"}], "callbacks": {}}
+    desc = {"classes": classes, "functions": [{"name": "fn", "params": fsig, "ret": "float"}], "callbacks": cbs}
     info["fn"] = fsig
     return desc, info
 
@@ -258,7 +267,7 @@ class QueryGen:
             a, b = self.body(level, depth, v), self.body(level, depth, v)
             return gen.binop(ast.Add, a[0], b[0]), gen.binop(ast.Add, a[1], b[1])
         # the collection of the next level
-        it, it_x = self.typed_call(cls.items, self.info[level]["items"], A(N(v), "items"), A(N(v), "items"), v, True)
+        it, it_x = self.typed_call(cls.items, self.info[level]["items"], A(N(v), "items"), A(N(v), self.info[level]["items_out"]), v, True)
         if k == "count":
             return call(A(it, "Count"), []), call(A(it_x, "Count"), [])
         if k == "dictnest":
@@ -269,7 +278,7 @@ class QueryGen:
         if k == "many" and level + 2 < LEVELS:
             cls2 = self.model.ns["L%d" % (level + 1)]
             self.maxdepth = max(self.maxdepth, depth + 1)
-            it2 = self.typed_call(cls2.items, self.info[level + 1]["items"], A(N(nv), "items"), A(N(nv), "items"), nv, True)
+            it2 = self.typed_call(cls2.items, self.info[level + 1]["items"], A(N(nv), "items"), A(N(nv), self.info[level + 1]["items_out"]), nv, True)
             return tc.op_call(self.r, it, "SelectMany", lam(nv, it2[0])), call(A(it_x, "SelectMany"), [lam(nv, it2[1])])
         inner = self.body(level + 1, depth + 1, nv)
         if k == "wherecount":
